@@ -20,7 +20,8 @@ def tasks(tier):
             Task('props.C01:t_driver_1d', name='C01/wire.one_pop.step', timeout=600),
             Task('props.C01:t_two_steps_1d', name='C01/wire.one_pop.two-steps', timeout=600),
             Task('props.C01:t_dispatch_1d', name='C01/wire.one_pop.const-dispatch', timeout=600),
-            Task('props.C01:t_const_1d', name='C01/wire.one_pop.const', timeout=600)] + bounded_tasks('C01', tier)
+            Task('props.C01:t_const_1d', name='C01/wire.one_pop.const', timeout=600),
+            Task('props.C01:t_const_1d_two_steps', name='C01/wire.one_pop.const-two-steps', timeout=600)] + bounded_tasks('C01', tier)
 
 
 def _rename(rs):
@@ -61,10 +62,16 @@ def t_const_1d():
     return _rename(W.c02_const_1d(4))
 
 
+def t_const_1d_two_steps():
+    """two consecutive steps of the constant-parameter driver: same off-diagonals, the 1/dt of step 1 does not leak into step 2, right-hand sides"""
+    from contracts import py_wiring as W
+    return _rename(W.c02_const_1d_two_steps(4))
+
+
 MANIFEST_ENTRY = dict(
     category='other',
     engine='bounded',
     technique='sidecar contracts on the real functions: wiring / closed-form obligations from the AST discharged by z3 and the ring normaliser where the functions are within reach; bounded run-time contracts with independent oracles for the rest (never counted as proved)',
-    text='Discharged from the real source on every run (all values, stated small shapes): closed forms of phi_1D_snm, phi_1D_genic (interior, both regimes), dispatch h=0.5 -> genic, gamma=0 -> snm incl. beta; the 1-D kernel implicit_1Dx against the shared C contracts (V with beta, M, delj, a/b/c, solve, frame, bounds); one step of one_pop (influx then kernel, dt rule); _one_pop_const_params system (n=4). Bounded run-time contracts (never counted as proved): One-population spectra against the exact Kingman coalescent expectation and the closed-form selection equilibrium, first-order convergence in the time step, phi_1D continuity/finite/non-negative over the gamma grid, stationarity under further integration.',
+    text='Discharged from the real source on every run (all values, stated small shapes): closed forms of phi_1D_snm, phi_1D_genic (interior, both regimes), dispatch h=0.5 -> genic, gamma=0 -> snm incl. beta; the 1-D kernel implicit_1Dx against the shared C contracts (V with beta, M, delj, a/b/c, solve, frame, bounds); one step and two consecutive steps of one_pop (influx then kernel, dt and parameters re-evaluated at each step), dispatch of all-scalar parameters to the constant integrator slot by slot; _one_pop_const_params system (n=4). Bounded run-time contracts (never counted as proved): One-population spectra against the exact Kingman coalescent expectation and the closed-form selection equilibrium, first-order convergence in the time step, phi_1D continuity/finite/non-negative over the gamma grid, stationarity under further integration.',
     note='bounded: see coverage.bounded.drivers[].bound in the evidence file for the exact domain of every driver',
 )
